@@ -693,6 +693,20 @@ def _(c):
     f.fore_color.rgb = RGBColor(250, 250, 210)
 
 
+@op("slide.authored_background_style", ["slide"])
+def _(c):
+    # not an API call: the slide's background as PowerPoint writes it when a Background Style is picked on the Design tab - a theme
+    # reference p:bg/p:bgRef (what the default template's slide master carries); put into p:cSld with lxml, replacing any p:bg there
+    from lxml import etree
+    P_ = "http://schemas.openxmlformats.org/presentationml/2006/main"
+    A_ = "http://schemas.openxmlformats.org/drawingml/2006/main"
+    cs = c.slide._element.find("{%s}cSld" % P_)
+    for el in cs.findall("{%s}bg" % P_):
+        cs.remove(el)
+    from pptx.oxml import parse_xml
+    cs.insert(0, parse_xml('<p:bg xmlns:p="%s" xmlns:a="%s"><p:bgRef idx="1001"><a:schemeClr val="bg1"/></p:bgRef></p:bg>' % (P_, A_)))
+
+
 @op("slide.background_gradient", ["slide"])
 def _(c): c.slide.background.fill.gradient()
 
